@@ -8,6 +8,11 @@ use crate::clock::{ClockId, ClockTime};
 use crate::Easing;
 use std::time::Duration;
 
+/// A state machine that is Paused with its fade resting at exactly -60 dB (what `pause` + a completed fade produce: C03.1a, C03.2a/d).
+pub(crate) fn paused_manager() -> PlaybackStateManager {
+    PlaybackStateManager { state: State::Paused, volume_fade: make(PView::Idle(Decibels::SILENCE), Decibels::SILENCE, Decibels::SILENCE, true) }
+}
+
 fn small_duration() -> Duration {
     let s: u64 = kani::any();
     kani::assume(s <= 100);
